@@ -811,3 +811,32 @@ def functional_branch_program(rng):
     text = "\n".join(init + ["while true:"] + ["    " + l for l in body] + ["end"]) + "\n"
     goals = ["s"] + rng.sample(["x", "s**2", "c*s", "x"], 2)
     return text, list(dict.fromkeys(goals))
+
+
+def late_init_c05(rng):
+    """a variable WITHOUT initial assignment that is read (in a condition, sometimes also on a right side) before the loop
+    body assigns it for the first time: in the first iteration the read sees the arbitrary initial value, so the variable
+    must not get a finite type made of the assigned values only"""
+    v = rng.choice(["x", "s", "k"])
+    fin = rng.choice([["draw", "Bernoulli", [num(rng.choice(PROB_POOL))]],
+                      ["draw", "DiscreteUniform", [num(0), num(rng.choice([1, 2, 3]))]],
+                      ["choice", [[num(rng.choice([0, 1])), "1/2"], [num(rng.choice([2, 3])), None]]],
+                      ["draw", "Categorical", [num(Fraction(1, 2)), num(Fraction(1, 4)), num(Fraction(1, 4))]]])
+    cond = ["cmp", var(v), rng.choice([">=", ">", "==", "<=", "<"]), num(rng.choice([0, 1, 1, 2]))]
+    init = [["assign", "y", num(0)], ["assign", "f", num(rng.choice([0, 1]))]]
+    upd = ["assign", "y", ["add", var("y"), num(rng.choice([1, 2]))]]
+    shape = rng.random()
+    if shape < 0.5:
+        first = ["if", [[cond, [upd]]], None]
+    elif shape < 0.75:
+        first = ["if", [[cond, [upd]]], [["assign", "y", ["sub", var("y"), num(1)]]]]
+    else:
+        first = ["if", [[["cmp", var("f"), "==", num(1)], [["assign", "y", num(0)]]], [cond, [upd]]], None]
+    body = [first, ["assign", "f", ["draw", "Bernoulli", [num(Fraction(1, 2))]]], ["assign", v, fin]]
+    if rng.random() < 0.3:
+        body.append(["assign", "y", ["add", var("y"), var(v)]])       # read again, after the assignment
+    if rng.random() < 0.3:
+        body.insert(1, ["assign", "z", ["add", var("z"), var(v)]])    # also read on a right side before the assignment
+        init.append(["assign", "z", num(0)])
+    guard = ["true"] if rng.random() < 0.7 else ["cmp", var("f"), "==", num(rng.choice([0, 1]))]
+    return {"types": [], "init": init, "guard": guard, "body": body, "uninitialised": [v]}
